@@ -323,7 +323,9 @@ m("C06-R1-declared-ignores-extend", "C06", "C06.R1", "generator/generator.go", '
 		return true
 	}
 	genMethod, err := g.lookup.Get''', '''	genMethod, err := g.lookup.Get''')
-m("C12-R10-bool-not-no", "C12", "C12.R10", "config/parse/parse.go", 'return val == "" || val == "yes", err', 'return val != "no", err')
+# (`return val != "no", err` used to be listed here: it is equivalent under Enum's contract — only "", yes, no come back —
+# and the evaluated three-row table rightly accepts it; the bare form below is a real change)
+m("C12-R10-bool-bare-false", "C12", "C12.R10", "config/parse/parse.go", 'return val == "" || val == "yes", err', 'return val == "yes", err')
 m("C12-R9-name-conditional", "C12", "C12.R9", "config/converter.go", '\t\tc.Name, err = parse.String(rest)\n', '\t\tif rest != "" {\n\t\t\tc.Name, err = parse.String(rest)\n\t\t}\n')
 m("C12-R8-update-conditional", "C12", "C12.R8", "config/method.go", '\t\tm.updateParam, err = parse.String(rest)\n', '\t\tif m.updateParam == "" {\n\t\t\tm.updateParam, err = parse.String(rest)\n\t\t}\n')
 m("C13-R5-candidate-mod", "C13", "C13.R5", "namer/namer.go", '\t\tnumberedName := name\n\t\tif i > 1 {\n\t\t\tnumberedName += fmt.Sprint(i)\n\t\t}', '\t\tnumberedName := name\n\t\tif i > 1 {\n\t\t\tnumberedName = name + fmt.Sprint(i%10)\n\t\t}')
